@@ -304,6 +304,7 @@ class Unit:
             if s not in self.spec.relies: out.append(f"Y_RELY_DEFAULT({c}, {s})")
             out.append(f"Y_DEFINE_ATOMIC({c}, {s})")
             if c in ('uint8_t', 'uint16_t', 'uint32_t', 'uint64_t', 'int', 'int64_t'): out.append(f"Y_DEFINE_ATOMIC_ARITH({c}, {s})")
+        out.append("#ifndef Y_OP_DELETE_HOOK\n#define Y_OP_DELETE_HOOK(p, size, align) ((void)0)\n#endif\n#ifndef Y_NODE_DELETE_HOOK\n#define Y_NODE_DELETE_HOOK(p) ((void)0)\n#endif\n#ifndef Y_QUEUE_POP_HOOK\n#define Y_QUEUE_POP_HOOK(Q, q, out) ((void)0)\n#endif\n#define Y_QUEUE_TRY_POP(Q, q, out) (y_queue_try_pop_##Q((q), (out)) ? (Y_QUEUE_POP_HOOK(Q, (q), (out)), 1) : 0)")
         out.append("#if defined(Y_SKELETON_VEC) && !defined(Y_VEC_ERASE_HOOK)\n#define Y_VEC_ERASE_HOOK(v, newsize) ((void)0)\n#endif")
         for nm, t in self.em.ty.generated.items():
             if t.kind == 'vector':
